@@ -1364,19 +1364,26 @@ impl Runtime {
                 if !matches!(thunk, Val::Closure(_)) {
                     return runtime("lipe-scan: policy is not a procedure");
                 }
+                // the scan uses the number of threads it is asked for (a literal from `-threads N`),
+                // capped by what the workload simulates; `(lipe-getopt-thread-count)` is the
+                // workload's own number
+                let threads = match &args[4] {
+                    Val::Int(n) if *n >= 1 => (*n as usize).min(self.knobs.threads),
+                    _ => self.knobs.threads,
+                };
                 if self.concurrent {
                     let mut handles = vec![];
-                    for t in 0..self.knobs.threads {
+                    for t in 0..threads {
                         let rt = self.clone();
                         let thunk = thunk.clone();
-                        handles.push(shuttle::thread::spawn(move || rt.scan_thread(t + 1, &thunk)));
+                        handles.push(shuttle::thread::spawn(move || rt.scan_thread(t + 1, &thunk, threads)));
                     }
                     for h in handles {
                         let _ = h.join();
                     }
                 } else {
-                    for t in 0..self.knobs.threads {
-                        self.scan_thread(t + 1, &thunk);
+                    for t in 0..threads {
+                        self.scan_thread(t + 1, &thunk, threads);
                     }
                 }
                 Ok(Val::Unspec)
@@ -1387,8 +1394,15 @@ impl Runtime {
 
     /// Scanner thread `thread` (1-based; 0 is the main thread): evaluate the policy on each of
     /// its files.
-    fn scan_thread(self: &Arc<Self>, thread: usize, thunk: &Val) {
-        let files = self.knobs.partition.get(thread - 1).cloned().unwrap_or_default();
+    fn scan_thread(self: &Arc<Self>, thread: usize, thunk: &Val, threads: usize) {
+        // with fewer scanner threads than the workload's partition has parts, thread t takes the
+        // parts t, t + threads, t + 2 threads, ...
+        let mut files = vec![];
+        let mut part = thread - 1;
+        while part < self.knobs.partition.len() {
+            files.extend(self.knobs.partition[part].iter().copied());
+            part += threads.max(1);
+        }
         for file in files {
             self.point();
             if self.knobs.honour_break && self.stop.load(Ordering::SeqCst) {
